@@ -304,3 +304,41 @@ func probeDupAfterRead() (bool, string) {
 	}
 	return false, ""
 }
+
+// K19k: the uniqueness check looks at the FIRST index entry with the key only (store Snapshot.GetWithPrefixAndFilters);
+// when that entry is the deleted one of an earlier holder, a live holder behind it is not seen.
+// d0{s:k} d1{s:x} d2{s:y}; delete d0; replace d1 by {s:k} (fine); replace d2 by {s:k}: must conflict, succeeds.
+func probeMasked() (bool, string) {
+	p := newProbeEnv()
+	if p == nil {
+		return false, ""
+	}
+	defer p.close()
+	if p.e.CreateCollection(bg, "probe", "c", "", []*protomodel.Field{fld("s", tSTRING)}, []*protomodel.Index{{Fields: []string{"s"}, IsUnique: true}}) != nil {
+		return false, ""
+	}
+	var ids []string
+	for _, v := range []string{"k", "x", "y"} {
+		_, id, err := p.e.InsertDocument(bg, "probe", "c", pdoc("s", v))
+		if err != nil {
+			return false, ""
+		}
+		ids = append(ids, id.EncodeToHexString())
+		p.wait()
+	}
+	if p.e.DeleteDocuments(bg, "probe", pquery("c", "s", opEQ, "k")) != nil {
+		return false, ""
+	}
+	p.wait()
+	if r, err := p.e.ReplaceDocuments(bg, "probe", &protomodel.Query{CollectionName: "c"}, pdoc("_id", ids[1], "s", "k")); err != nil || len(r) != 1 {
+		return false, ""
+	}
+	p.wait()
+	r, err := p.e.ReplaceDocuments(bg, "probe", &protomodel.Query{CollectionName: "c"}, pdoc("_id", ids[2], "s", "k"))
+	p.wait()
+	res, serr := p.search(pquery("c", "s", opEQ, "k"))
+	if err == nil && len(r) == 1 && serr == nil && len(res) == 2 {
+		return true, "unique index on s: docs k,x,y; delete k; replace x by k (ok); replace y by k also succeeds: 2 live documents with s=k"
+	}
+	return false, ""
+}
